@@ -116,5 +116,13 @@ func VMonoid() {
 	// Empty is stable across calls and independent of Combine
 	_ = m2.Combine(m2.Empty(), a)
 	vrt.Assert("monoid.from.empty-stable", m2.Empty() == vrt.Named("e3", e))
+	// a Monoid is a Semigroup too: From over an already-built monoid still takes
+	// the given element as Empty (and the inner operation as Combine)
+	e4 := vrt.Int("e4")
+	m3 := monoid.From[int](e4, m1)
+	vrt.Assert("monoid.from-monoid.empty", m3.Empty() == vrt.Named("e4", e4))
+	vrt.Assert("monoid.from-monoid.combine", m3.Combine(a, b) == vrt.Named("c4", vrt.UF2("op", a, b)))
+	m4 := monoid.From[int](e4, m2)
+	vrt.Assert("monoid.from-from.empty", m4.Empty() == vrt.Named("e5", e4))
 	vrt.Cover("monoid.done")
 }
